@@ -783,6 +783,10 @@ def key_holder_dispatch(ctx, col: Collector, rule: str):
     idx = ctx.idx
     from ..inline import inlined_info
     fi = inlined_info(idx, idx.func('pydbml.renderer.sql.default.table', 'get_references_for_sql'), depth=2)
+    # a local that only names `model.database` (bound once) is read as that path
+    from .common import inline_single_assignment_locals
+    from ..pyindex import FuncInfo as _FI
+    fi = _FI(fi.module, fi.qualname, inline_single_assignment_locals(fi.node), fi.cls, fi.kind)
     p = [a.arg for a in fi.node.args.args][0]
     consts = const_names(ctx)
     holders = holder_sides(ctx)
